@@ -130,9 +130,9 @@ def extension(tier):
         inexact += [{'R': R3}, {'sps': 7, 'R': R3}, {'sps': 7, 'fs': 7 * R3}, {'fs': 7 / T3}, {'sps': 5, 'fs': 1 / (100e-12 / 5)}]
         inexact += [{'R': 1 / 100e-12, 'fs': 1 / (100e-12 / 11)}, {'R': R4, 'fs': 1 / (1e-9 / 3 / 7)}, {'R': R3, 'fs': 1 / (T3 / 10)}]
     cross(inexact, [{}, {'N': 3}, {'N': 1, 'alpha': 0.5}])
-    # 5. custom attributes set in several separate calls (all must disappear with clean()); thorough (core: beta, alpha updated) adds a container-valued one
+    # 5. custom attributes set in several separate calls (all must disappear with clean()); the thorough core product has them already, plus an updated alpha
     cust = [{'beta': 'x'}, {'alpha': 0.5, 'beta': 'x'}]
-    cross(cust if not th else [{'gamma': (1, 2)}], [{}, {'N': 3}, {'sps': 8, 'R': 1e9}, {'wavelength': 1310e-9}, {'fs': 16e9}])
+    cross(cust, [{}, {'N': 3}, {'sps': 8, 'R': 1e9}, {'wavelength': 1310e-9}, {'fs': 16e9}])
     # 6. positional spellings
     pos = [(8, 1e9), (8.0, 1e9), (4, None, 8e9), (None, 2e9, 16e9), (None, None, 8e9), (8, 2e9, None, 1310e-9), (8, 1e9, None, 1550e-9, 3),
            (None, None, None, 1310e-9, 1), (None, None, None, 1550e-9, None), 
